@@ -875,3 +875,57 @@ def emptied_variants(v):
                 walk(y, lambda ny, i=i, x=x: rebuild(Rec(x[:i] + (ny,) + x[i + 1:])))
     walk(v, lambda nv: nv)
     return out
+
+
+# --------------------------------------------------------------------------
+# CountingContext (the running PopData size used to enforce the limits) vs PopData::estimateSize
+# --------------------------------------------------------------------------
+def counting_sequences(r, quick=True):
+    """token sequences in which ONE kind crosses the 255 -> 256 element boundary (its length prefix grows by one byte)
+    while the two other kinds stay small or cross it too, followed by single-element steps of every kind"""
+    seqs = []
+    kinds = "avb"
+    for k in kinds:
+        others = [o for o in kinds if o != k]
+        for variant in range(2 if quick else 8):
+            pre = ["%s%d" % (o, r.range(0, 4)) for o in others]
+            r.shuffle(pre)
+            ex = r.choice([0, 1, 7, 200])
+            big = "%s%dx%d" % (k, r.choice([253, 254]), ex) if k != "b" else "%s%d" % (k, r.choice([253, 254]))
+            order = [big] + pre if variant % 2 == 0 else pre + [big]
+            singles = [k + "1", k + "1", others[0] + "1", k + "1", others[1] + "1", k + "1", others[0] + "1x3", k + "1"]
+            seqs.append(order + singles)
+    if not quick:
+        for _ in range(6):      # two kinds across the boundary
+            a, b = r.choice(kinds), r.choice(kinds)
+            seqs.append(["%s255" % a, "%s255" % b] + [r.choice(kinds) + "1" for _ in range(8)])
+    return seqs
+
+
+def counting_cases(r, run, quick=True):
+    """run(cases) -> {id: result line}; two passes: learn the PopData size after every token with unbounded limits, then
+    replay each sequence with maxsize set exactly at, one below and one above the size reached after a token, and with
+    the per-kind count limit exactly at / one below the count reached"""
+    big = 0x3b9aca00
+    seqs = counting_sequences(r, quick)
+    p1 = [("n%d" % i, "count", ["%x" % big, "c350", "c350", "c350", ",".join(sq)]) for i, sq in enumerate(seqs)]
+    res1 = run(p1)
+    out = []
+    k = 0
+    for (cid, _, args), sq in zip(p1, seqs):
+        line = res1.get(cid, "")
+        if not line.startswith("OK"):
+            continue
+        sizes = [int(x) for x in line.split()[3].split(",")]
+        picks = list(range(max(0, len(sq) - 8), len(sq)))
+        for j in picks:
+            for d in (-1, 0, 1):
+                out.append(("c%d" % k, "count", ["%x" % (sizes[j] + d), "c350", "c350", "c350", ",".join(sq)]))
+                k += 1
+        for lim in (255, 256, 257):
+            for which in range(3):
+                L = ["c350", "c350", "c350"]
+                L[which] = "%x" % lim
+                out.append(("c%d" % k, "count", ["%x" % big] + L + [",".join(sq)]))
+                k += 1
+    return p1, res1, out
